@@ -22,8 +22,8 @@ import z3
 from .common import *  # noqa
 
 SYMBOL = {"Eq": "==", "NotEq": "!=", "Lt": "<", "Gt": ">", "LtE": "<=", "GtE": ">=", "In": "in", "NotIn": "not in", "Is": "is", "IsNot": "is not"}
-FALSE_OPS = ["Eq", "NotEq", "Lt", "Gt", "LtE", "GtE", "In"]  # the property fixes their value: False
-NORAISE_OPS = ["NotIn", "Is", "IsNot"]  # value fixed by Python (negation / identity); only "never raises" is claimed
+FALSE_OPS = ["Eq", "NotEq", "Lt", "Gt", "LtE", "GtE", "In", "NotIn"]  # the property fixes their value: False
+NORAISE_OPS = ["Is", "IsNot"]  # value fixed by Python (identity); only "never raises" is claimed
 
 FIELDS = [("varint", "n"), ("string", "s"), ("bytes", "b"), ("float", "f"), ("boolean", "flag"), ("string", "unset"), ("string[]", "sl"),
           ("net.ipaddress", "ip"), ("net.ipnetwork", "net"), ("uint16", "port"), ("digest", "dg"),
